@@ -32,7 +32,7 @@ func suiteProto(c M) M {
 		case "x":
 			script = append(script, -2)
 		case "w": // a read error that WRAPS io.EOF: still an error, not the end of the input
-			script = append(script, -1000)
+			script = append(script, wrappedEOF)
 		}
 	}
 	api := str(c["api"])
